@@ -150,7 +150,9 @@ def body_lists(ch, ctx):
         attrs = {"ID": ["x%d" % i] if i != 1 else ["x1", "x1alt"], "Parent": ["t1"], "num": [str(10 - i)], "tag": ["v%d" % (i % 2)],
                  "lvl": ["2", "10"],
                  # signed numbers and exponent notation are numbers too
-                 "off": ["-1", "-10"] if i % 2 == 0 else ["+5", "-1"], "w": ["1e3", "200"]}
+                 "off": ["-1", "-10"] if i % 2 == 0 else ["+5", "-1"],
+                 # ... and different spellings of one number are different values
+                 "w": ["1e3", "200"] if i % 2 == 0 else ["1e3", "200.0", "2e2"]}
         if i % 2 == 0:
             attrs["only_here"] = ["zeta", "alpha", "zeta", "9", "10"]       # on every other feature only
         if same_attrs:
